@@ -29,7 +29,7 @@ ASSUMPTIONS = ["scalar intervention parameters are python int/float (the documen
                "condition-scaled tolerance: 1e3*eps*cond(I-W'^T) relative to the natural scale of the result"]
 EXHAUSTIVE = {"quick": False, "thorough": False}
 SOFT_LIMIT = {"quick": 240, "thorough": 1500}
-REQUIRED_FUNCS = ["sempler/lganm.py:LGANM.sample", "sempler/lganm.py:_parse_interventions", "sempler/lganm.py:LGANM.__init__"]
+REQUIRED_FUNCS = ["sempler/lganm.py:LGANM.sample", "sempler/lganm.py:LGANM.__init__"]      # public entry points only: a rewrite may drop private helpers
 REQUIRED_COUNTERS = {"quick": {"judged": 5000, "call-form:positional": 300, "overlap:do+noise": 100, "overlap:do+shift": 100, "overlap:noise+shift": 100,
                                "overlap:all-three": 50, "scalar-param": 500, "dtype:int-means-or-variances": 200, "form:None": 100, "form:{}": 100, "form:omitted": 100,
                                "ctor:ranges": 200},
